@@ -171,6 +171,7 @@ type svcClient struct {
 	log         []string
 	svcRequests int
 	disposedAck map[int]bool
+	ctxReady    map[int]bool // the response to the context-creating build request has arrived
 }
 
 func (c *svcClient) fail(class, f string, a ...interface{}) {
@@ -303,6 +304,11 @@ func (c *svcClient) checkResponse(id uint32, desc string, val interface{}) {
 			}
 		}
 	case strings.HasPrefix(desc, "build"), strings.HasPrefix(desc, "context"):
+		if strings.HasPrefix(desc, "context") {
+			var key int
+			fmt.Sscanf(desc, "context key=%d", &key)
+			c.ctxReady[key] = true
+		}
 		if _, ok := m["errors"]; !ok {
 			if _, ok := m["error"]; !ok {
 				c.fail("service-bad-response", "build response #%d has neither errors nor error: %v", id, m)
@@ -312,9 +318,10 @@ func (c *svcClient) checkResponse(id uint32, desc string, val interface{}) {
 		if _, ok := m["error"]; !ok {
 			c.fail("service-work-after-dispose", "rebuild on a key whose dispose had already been answered succeeded: %v", m)
 		}
-	case strings.HasPrefix(desc, "dispose"):
+	case strings.HasPrefix(desc, "dispose-ready"):
+		// only a dispose sent after the context existed is known to have disposed it
 		var key int
-		fmt.Sscanf(desc, "dispose key=%d", &key)
+		fmt.Sscanf(desc, "dispose-ready key=%d", &key)
 		c.disposedAck[key] = true
 	}
 }
@@ -362,7 +369,7 @@ func scenarioC20Service(rc *RunCtx) *Violation {
 	p.WriteTo(d, false)
 	abrupt := g.n(4) == 0 // close stdin at an arbitrary point instead of gracefully
 	st := &verifsim.Stdio{Frag: verifsim.NewTape(uint64(g.n(1<<30)), 1<<16)}
-	c := &svcClient{st: st, g: g, outstanding: map[uint32]string{}, responses: map[uint32]interface{}{}, svcOpen: map[uint32]bool{}, disposedAck: map[int]bool{}}
+	c := &svcClient{st: st, g: g, outstanding: map[uint32]string{}, responses: map[uint32]interface{}{}, svcOpen: map[uint32]bool{}, disposedAck: map[int]bool{}, ctxReady: map[int]bool{}}
 
 	entries := []interface{}{}
 	for _, e := range p.EntryPaths() {
@@ -453,7 +460,11 @@ func scenarioC20Service(rc *RunCtx) *Violation {
 			case 9:
 				if len(contexts) > 0 {
 					k := contexts[g.n(len(contexts))]
-					c.request(fmt.Sprintf("dispose key=%d", k), map[string]interface{}{"command": "dispose", "key": k})
+					name := "dispose"
+					if c.ctxReady[k] {
+						name = "dispose-ready"
+					}
+					c.request(fmt.Sprintf("%s key=%d", name, k), map[string]interface{}{"command": "dispose", "key": k})
 					desc = append(desc, fmt.Sprintf("dispose(%d)", k))
 				}
 			}
